@@ -165,6 +165,9 @@ class ProgressBar(object):
 
         if max is not None:
             self._set_max_steps(max)
+            # Whether there is a maximum decides between a format and its
+            # "_nomax" variant: resolve it again for the new maximum
+            self._format = None
 
         self.display()
 
